@@ -156,6 +156,8 @@ func (e *Engine) verifIntrinsic(fn *ssa.Function, args []Value) (Value, bool) {
 		return e.symValue(t, e.concreteStr(args[0]), int(args[1].(int64)), int(args[2].(int64))), true
 	case "Clone":
 		return e.cloneValue(args[0], map[*Obj]*Obj{}, map[*MapV]*MapV{}), true
+	case "RegisterImpl":
+		return nil, true // native-only registry; the engine asks go/types (implFor)
 	case "Symbolic":
 		return true, true
 	case "Fatal":
